@@ -137,6 +137,11 @@ def check_learner(case):
             require(np.array_equal(w.model.seen_X_, X) and np.array_equal(np.asarray(w.model.seen_y_, dtype=np.float64), np.asarray(y, dtype=np.float64)),
                     "learner:inner-saw-other-data", "", facts)
             require((w.model.seen_w_ is None) == (not kw) and (not kw or np.array_equal(w.model.seen_w_, kw["sample_weight"])), "learner:fit-kwargs-not-forwarded", "", facts)
+        # a batch of exactly one row: still one output row
+        one = np.asarray(w.transform(Z[:1]))
+        exp1 = _direct(w.model, eff, Z[:1])
+        require(one.shape == exp1.shape and one.shape[0] == 1 and np.array_equal(one, exp1, equal_nan=True), "learner:single-row-batch",
+                "transform of a one-row batch has shape %r, model.%s gives %r" % (one.shape, facts["effective"], exp1.shape), facts)
         out = w.transform(Z)
         exp = _direct(w.model, eff, Z)
         require(np.asarray(out).ndim == 2, "learner:not-2d", "%r" % (np.asarray(out).shape,), facts)
@@ -234,6 +239,9 @@ def check_stacking(case):
                 meth = eff_method
             cols.append(_direct(ref, meth, Z))
         exp = np.hstack(cols)
+        one = np.asarray(st_.transform(Z[:1]))
+        require(one.shape == (1, exp.shape[1]) and bool(np.allclose(one.astype(np.float64), exp[:1].astype(np.float64), rtol=1e-9, atol=1e-9, equal_nan=True)), "stacking:single-row-batch",
+                "transform of a one-row batch has shape %r, expected %r" % (one.shape, (1, exp.shape[1])), facts)
         require(out.shape == exp.shape, "stacking:shape", "%r vs %r (members %r)" % (out.shape, exp.shape, [c.shape[1] for c in cols]), facts)
         require(np.array_equal(out, exp, equal_nan=True), "stacking:not-concatenation", "transform is not the column concatenation of its members' own outputs", facts)
         kinds = "".join(np.asarray(c).dtype.kind for c in cols)
